@@ -151,6 +151,10 @@ var c08Strs = []string{"red", "blue", "Red", "a b", "10", "2.5", "true", "x-1", 
 var c08Nums = []float64{0, 1, 2.5, 10, -3, 1000, 0.1, 7}
 var c08ListElems = []string{"red", "blue", "go", "10", "true", "a b"}
 
+// non-string list elements (JSON numbers and booleans). The numbers are all in the range in which every
+// usual rendering of a float64 (strconv 'g' / 'f', fmt %v, encoding/json) gives the same plain decimal text.
+var c08ListNums = []float64{10, 20, 1, 2.5, 0, -3, 7, 1000}
+
 // numeric literals as filter text: canonical and alternative spellings, plus thresholds between the values
 var c08NumLits = []string{"0", "1", "2.5", "2.50", "10", "10.0", "1e1", "-3", "-3.0", "1000", "1e3", "0.1", "7", "5", "2", "-1", "100"}
 
@@ -185,10 +189,27 @@ func c08GenValue(t *rapid.T, key string, lists bool) any {
 	}
 	n := rapid.IntRange(0, 3).Draw(t, "listlen")
 	l := make([]any, 0, n)
+	// element class of this list: strings only / numbers only / booleans only / anything
+	class := rapid.SampledFrom([]int{0, 0, 0, 1, 1, 2, 3, 3}).Draw(t, "listclass")
 	for i := 0; i < n; i++ {
-		l = append(l, rapid.SampledFrom(c08ListElems).Draw(t, "elem"))
+		ek := class
+		if class == 3 {
+			ek = rapid.IntRange(0, 2).Draw(t, "elemkind")
+		}
+		l = append(l, c08GenElem(t, ek))
 	}
 	return l
+}
+
+// c08GenElem: one list element, 0 = string, 1 = JSON number, 2 = boolean.
+func c08GenElem(t *rapid.T, kind int) any {
+	switch kind {
+	case 1:
+		return rapid.SampledFrom(c08ListNums).Draw(t, "elemnum")
+	case 2:
+		return rapid.Bool().Draw(t, "elembool")
+	}
+	return rapid.SampledFrom(c08ListElems).Draw(t, "elem")
 }
 
 // c08Twin: in a "twin" case one key keeps receiving the SAME literal in its different representations
@@ -220,7 +241,17 @@ func c08GenMeta(t *rapid.T, min int, lists bool, twin *c08Twin) map[string]any {
 			default:
 				m[k] = twin.Str
 				if lists {
-					m[k] = []any{twin.Str}
+					// the literal as a list element: as a string, in its own type, or both (plus a bystander)
+					switch rapid.IntRange(0, 3).Draw(t, "twinlist") {
+					case 0:
+						m[k] = []any{twin.Str}
+					case 1:
+						m[k] = []any{twin.Val}
+					case 2:
+						m[k] = []any{c08GenElem(t, rapid.IntRange(0, 2).Draw(t, "elemkind")), twin.Val}
+					default:
+						m[k] = []any{twin.Str, twin.Val}
+					}
 				}
 			}
 			continue
@@ -265,7 +296,19 @@ func c08ClauseFromSeen(t *rapid.T, sv c08Seen) c08Clause {
 			c.Q = ""
 		}
 	}
-	switch v := sv.Val.(type) {
+	val := sv.Val
+	if l, ok := val.([]any); ok { // a list: ask about one of its elements (membership)
+		if len(l) == 0 {
+			str(rapid.SampledFrom(c08ListElems).Draw(t, "elemlit"))
+			return c
+		}
+		val = rapid.SampledFrom(l).Draw(t, "elemof")
+		if f, isNum := val.(float64); isNum && rapid.IntRange(0, 99).Draw(t, "elemcanon") < 60 {
+			c.Lit = c08FmtNum(f) // mostly the plain spelling of a numeric element, unquoted
+			return c
+		}
+	}
+	switch v := val.(type) {
 	case string:
 		str(v)
 	case float64:
@@ -286,12 +329,6 @@ func c08ClauseFromSeen(t *rapid.T, sv c08Seen) c08Clause {
 		}
 		if rapid.IntRange(0, 99).Draw(t, "qbool") < 40 {
 			c.Q = q
-		}
-	case []any:
-		if len(v) == 0 {
-			str(rapid.SampledFrom(c08ListElems).Draw(t, "elemlit"))
-		} else {
-			str(rapid.SampledFrom(v).Draw(t, "elemof").(string))
 		}
 	}
 	return c
@@ -625,6 +662,46 @@ func (m *c08Model) ids() []string {
 	}
 	sort.Strings(out)
 	return out
+}
+
+// c08ListClass: "" = not a list or an empty one; otherwise which element types the list holds.
+func c08ListClass(v any) string {
+	l, ok := v.([]any)
+	if !ok || len(l) == 0 {
+		return ""
+	}
+	var str, num, boo bool
+	for _, e := range l {
+		switch e.(type) {
+		case string:
+			str = true
+		case float64:
+			num = true
+		case bool:
+			boo = true
+		}
+	}
+	switch {
+	case str && !num && !boo:
+		return "string-elements"
+	case num && !str && !boo:
+		return "numeric-elements"
+	case boo && !str && !num:
+		return "boolean-elements"
+	}
+	return "mixed-elements"
+}
+
+// hasNonStringList: some live vector carries a list with a numeric or boolean element.
+func (m *c08Model) hasNonStringList() bool {
+	for _, meta := range m.Live {
+		for _, v := range meta {
+			if cl := c08ListClass(v); cl != "" && cl != "string-elements" {
+				return true
+			}
+		}
+	}
+	return false
 }
 
 func (m *c08Model) hasList() bool {
